@@ -98,6 +98,18 @@ PINNED = [
     {"N": 8, "K": 3, "edges": [(1, 3, 4), (4, 6), (1, 4, 6), (1, 3, 7), (1, 3, 6)], "weights": None, "family": "zero",
      "seed": 72647, "n_realizations": 2, "max_iter": 25, "every": 1, "normalizeU": False, "baseline_r0": True,
      "min_value_par": 1e-05, "weighted_L": False},
+    # likelihood_ascent raised by the thorough tier: realisation 0 is converged at -2.1932 when the affinity of an extinct community
+    # explodes (w 1e9 .. 1e28: its psi is rounding residue), the memberships hit the cap max_value_par = 100 and the recorded value
+    # falls to -118.6, then -35.1.  Values computed with a membership at the cap / with a rounding bound above 1e-3 are outside the
+    # ascent claim (constrained memberships, rounding) and not judged; the numerical defect itself is described in
+    # .work/proposed/C17-hypergraphmt-psi-drift-ascent.diff
+    {"N": 5, "K": 3, "edges": [(1, 2), (1, 2, 3, 4), (1, 3, 4)], "weights": [0.75, 2.0, 2.0], "family": "sparse", "seed": 202410,
+     "n_realizations": 2, "max_iter": 25, "every": 2, "normalizeU": False, "baseline_r0": False, "min_value_par": 1e-05,
+     "weighted_L": False},
+    # the same degeneration without any clipping (w 1e21, memberships <= 1.5): recorded -4.36 -> -13.47 -> -6.21
+    {"N": 6, "K": 3, "edges": [(1, 2, 5), (2, 3, 4), (2, 3), (2, 4), (1, 4, 5), (2, 5)], "weights": [1, 3, 3, 2, 1, 1], "family": "str",
+     "seed": 80181, "n_realizations": 1, "max_iter": 60, "every": 1, "normalizeU": False, "baseline_r0": True, "min_value_par": 0.0,
+     "weighted_L": False},
 ]
 
 
@@ -206,6 +218,38 @@ class Interrupted(Exception):
 UNWRITABLE = "/dev/null/c17-no-such-folder/"      # below a character device: no implementation can create or write it
 
 
+ILL_CONDITIONED = 1e-3      # relative rounding bound beyond which a recorded log-likelihood is not judged
+
+
+def ascent_codes(values, bounds, clipped, ill):
+    """integer codes of the recorded log-likelihoods of ONE realisation for the ascent clause (code[j] >= code[j-1]).
+    Judged values get their tolerance rank among the judged values (EM.ranks: neighbours in value order are merged, so a huge bound
+    on one value says nothing about its distance to the others - such values must be taken out, not ranked).  A pair of consecutive
+    values with a value outside the claim is not judged: the codes that follow are shifted by a constant so that the pair ascends;
+    pairs of judged values keep their difference.  Returns (codes, pairs not judged: clipped, pairs not judged: ill-conditioned)"""
+    out_of_claim = [c or i for c, i in zip(clipped, ill)]
+    keep = [j for j in range(len(values)) if not out_of_claim[j]]
+    rk, _ = EM.ranks([values[j] for j in keep], extra=[bounds[j] for j in keep])
+    raw = dict(zip(keep, rk))
+    codes, offset, n_clip, n_ill = [], 0, 0, 0
+    for j in range(len(values)):
+        if j == 0:
+            codes.append(raw.get(0, 0))
+            continue
+        if out_of_claim[j] or out_of_claim[j - 1]:
+            if clipped[j] or clipped[j - 1]:
+                n_clip += 1
+            else:
+                n_ill += 1
+        if out_of_claim[j]:
+            codes.append(codes[-1])
+        else:
+            if out_of_claim[j - 1]:
+                offset = max(offset, codes[-1] - raw[j])
+            codes.append(raw[j] + offset)
+    return codes, n_clip, n_ill
+
+
 def probe_class():
     """HypergraphMT observed from inside fit(): every evaluation of the log-likelihood is recorded together with the
     rounding bound of the parameters at that moment (the table itself has no access to them)"""
@@ -227,7 +271,9 @@ def probe_class():
                 # number returned is an artefact of the epsilons inside the logarithms
                 dead = any(all(w_[len(e) - 2, k] == 0 or any(u_[i, k] == 0 for i in e) for k in range(u_.shape[1]))
                            for e in self.verif_edges)
-                self.verif_cond.append((float(v), cond_bound(u_, w_), dead))
+                # a membership at the model's cap (values above max_value_par are set to the cap): the memberships are constrained
+                clipped = bool(np.any(u_ >= float(self.max_value_par)))
+                self.verif_cond.append((float(v), cond_bound(u_, w_), dead, clipped))
             except Exception:
                 pass
             return v
@@ -355,15 +401,25 @@ def observe(cfg, idx):
     cond = m.verif_cond if len(m.verif_cond) == len(tl) and all(a == b[0] for a, b in zip(tl, m.verif_cond)) else None
     info["ascent_judged"] = cond is not None
     tcode = [0] * len(tl)
+    info["not_judged"] = {"clipped": 0, "ill_conditioned": 0}
     if cond is not None:
         reals = [int(a) for a in ti["realization"]]
+        # a value is outside the claim when it was computed with a membership at the cap max_value_par (constrained memberships) or
+        # when its rounding bound leaves it fewer than three digits (w of an extinct community beyond ~1e9): the comparison with
+        # its predecessor and with its successor is NOT judged
+        clipped = [bool(c_[3]) for c_ in cond]
+        ill = [(not c_[2]) and c_[1] > ILL_CONDITIONED * max(1.0, abs(c_[0])) for c_ in cond]
         for r in sorted(set(reals)):
             ix = [j for j, a in enumerate(reals) if a == r]
-            tr_, _ = EM.ranks([-math.inf if cond[j][2] else tl[j] for j in ix], extra=[cond[j][1] for j in ix])
-            for j, c_ in zip(ix, tr_):
+            codes, n_clip, n_ill = ascent_codes([-math.inf if cond[j][2] else tl[j] for j in ix], [cond[j][1] for j in ix],
+                                                [clipped[j] for j in ix], [ill[j] for j in ix])
+            info["not_judged"]["clipped"] += n_clip
+            info["not_judged"]["ill_conditioned"] += n_ill
+            for j, c_ in zip(ix, codes):
                 tcode[j] = c_
         info["rounding_bounds"] = [c_[1] for c_ in cond]
         info["impossible_hyperedge"] = [c_[2] for c_ in cond]
+        info["membership_at_cap"] = clipped
     events, ends = [], {}
     if ev is not None:
         ends = {e["r"]: e for e in ev if e["kind"] == "mt_end"}
@@ -485,6 +541,7 @@ def validate(res, tier, rng, only=None):
         model = sorted({c for _, f in rj for c in f if c.startswith("m:")})
         payload = {"config": cfg, "train_info": infos[i].get("train_info"), "maxL": infos[i].get("maxL"), "rejected_events": rj,
                    "events": traces[t]["ev"], "impossible_hyperedge": infos[i].get("impossible_hyperedge"),
+                   "membership_at_cap": infos[i].get("membership_at_cap"),
                    "rounding_bounds": infos[i].get("rounding_bounds")}
         if prop:
             res.reject(hist({"clauses": prop, "method": "mt", "normalizeU": cfg["normalizeU"]}, cfg),
@@ -507,6 +564,8 @@ def validate(res, tier, rng, only=None):
             fits=2 * len(cfgs), realisations=sum(c["n_realizations"] for c in cfgs),
             ascent_traces=sum(1 for tr in traces if tr["cfg"]["ascent"]),
             ascent_not_judged_no_probe=sum(1 for i_ in infos if i_.get("ascent_judged") is False),
+            ascent_steps_not_judged_clipped=sum(i_.get("not_judged", {}).get("clipped", 0) for i_ in infos),
+            ascent_steps_not_judged_ill_conditioned=sum(i_.get("not_judged", {}).get("ill_conditioned", 0) for i_ in infos),
             loglik_definition_checked=sum(1 for c in cases if "lldef" in c),
             with_isolated_nodes=sum(1 for c in cfgs if c["N"] > len({n for e in c["edges"] for n in e})),
             model_object_fitted_before=sum(1 for c in cfgs if c.get("refit_after")),
@@ -530,7 +589,9 @@ def run(tier, seed):
     res.assume(
         "TLC has no reals: log-likelihood values enter TLC as integer ranks (exact rank for the bookkeeping of the maximum; for ascent a tolerance "
         "rank per realisation: neighbours closer than 1e-9*max(1,|L|) + the rounding bound of the parameters the value was computed from are "
-        "merged by single linkage; that bound, 1e-12 * sum_{d,k} w_dk max_{d'<=d} C(N,d') max(1,max u_k)^d, is read by a subclass that observes "
+        "merged by single linkage among the judged values; a value whose bound exceeds 1e-3*max(1,|L|), or that was computed while some membership sat at "
+        "the cap max_value_par (constrained memberships), is outside the claim: its comparison with the previous and with the next recorded value is "
+        "not judged (counted as ascent_steps_not_judged_*); that bound, 1e-12 * sum_{d,k} w_dk max_{d'<=d} C(N,d') max(1,max u_k)^d, is read by a subclass that observes "
         "_LogLikelihood during fit - when a community dies out w reaches 1e15 and the reported value wobbles by 1e-2 from rounding alone; such "
         "steps are not judged; a value computed while a logged hyperedge has rate 0 (a membership truncated to 0) counts as -inf, its definition, "
         "instead of the epsilon artefact recorded; without the observer ascent is not judged at all and counted), matrices as flags decided in Python "
